@@ -170,6 +170,7 @@ def xh_fold_family(run):
         for w in ((2, 3) if quick else (1, 2, 3, 4)):
             for pat in ("cc", "cx", "xc", "xs"):
                 add(o, pat, w=w)
+                jobs[-1] = jobs[-1][:2] + (t * 3,) + jobs[-1][3:]      # non-linear kernels need more time per condition
     for o in ("Plus/I", "Minus/I", "Times/I", "LE/I", "LT/I", "Equals/I", "Div/I"):
         for pat in ("cc", "cx", "xc", "xs"):
             add(o, pat)
